@@ -57,9 +57,9 @@ pub trait HC: Codec + 'static + std::panic::RefUnwindSafe + std::panic::UnwindSa
     fn sym_cmp(_a: Self, _b: Self) -> Option<Ordering> {
         None
     }
-    fn kmer_special(_op: &str, _k: usize, _st: &str, _t: &mut crate::ast::Toks) -> crate::eval::R<String> {
-        Err(crate::eval::Fail::Unsup)
-    }
+    fn kdispatch(op: &str, k: usize, st: &str, a: &crate::kmer::KArgs<Self>) -> crate::eval::R<String>;
+    fn kd_dispatch<T>(k: usize, x: &SeqSlice<Self>, cont: &mut dyn FnMut(&SeqSlice<Self>) -> crate::eval::R<T>) -> crate::eval::R<T>;
+    fn ofkmer_dispatch(k: usize, x: &SeqSlice<Self>) -> crate::eval::R<Seq<Self>>;
 }
 
 macro_rules! comp_methods {
@@ -132,14 +132,6 @@ macro_rules! ord_methods {
     };
 }
 
-macro_rules! ord_kmer {
-    () => {
-        fn kmer_special(op: &str, k: usize, st: &str, t: &mut crate::ast::Toks) -> crate::eval::R<String> {
-            crate::kmer::special_ord::<Self>(op, k, st, t)
-        }
-    };
-}
-
 impl HC for Dna {
     const NAME: &'static str = "dna";
     const HAS_COMP: bool = true;
@@ -147,12 +139,7 @@ impl HC for Dna {
     const HAS_ORD: bool = true;
     comp_methods!();
     ord_methods!();
-    fn kmer_special(op: &str, k: usize, st: &str, t: &mut crate::ast::Toks) -> crate::eval::R<String> {
-        match op {
-            "comp" | "revcomp" | "compmut" | "revcompmut" | "canon" => crate::kmer::special_dna(op, k, st, t),
-            _ => crate::kmer::special_ord::<Self>(op, k, st, t),
-        }
-    }
+    crate::kdispatch_impl!([1 2 3 4 5 6 7 8 9 10 11 12 13 14 15 16 17 18 19 20 21 22 23 24 25 26 27 28 29 30 31 32], [1 2 3 4 5 6 7 8 9 10 11 12 13 14 15 16 17 18 19 20 21 22 23 24 25 26 27 28 29 30 31 32 33 34 35 36 37 38 39 40 41 42 43 44 45 46 47 48 49 50 51 52 53 54 55 56 57 58 59 60 61 62 63 64], yes, yes);
 }
 
 impl HC for Iupac {
@@ -161,6 +148,7 @@ impl HC for Iupac {
     const HAS_MASK: bool = false;
     const HAS_ORD: bool = false;
     comp_methods!();
+    crate::kdispatch_impl!([1 2 3 4 5 6 7 8 9 10 11 12 13 14 15 16], [1 2 3 4 5 6 7 8 9 10 11 12 13 14 15 16 17 18 19 20 21 22 23 24 25 26 27 28 29 30 31 32], no, no);
 }
 
 impl HC for Amino {
@@ -168,6 +156,7 @@ impl HC for Amino {
     const HAS_COMP: bool = false;
     const HAS_MASK: bool = false;
     const HAS_ORD: bool = false;
+    crate::kdispatch_impl!([1 2 3 4 5 6 7 8 9 10], [1 2 3 4 5 6 7 8 9 10 11 12 13 14 15 16 17 18 19 20 21], no, no);
 }
 
 impl HC for text::Dna {
@@ -176,7 +165,7 @@ impl HC for text::Dna {
     const HAS_MASK: bool = false;
     const HAS_ORD: bool = true;
     ord_methods!();
-    ord_kmer!();
+    crate::kdispatch_impl!([1 2 3 4 5 6 7 8], [1 2 3 4 5 6 7 8 9 10 11 12 13 14 15 16], yes, no);
 }
 
 impl HC for masked::Dna {
@@ -187,7 +176,7 @@ impl HC for masked::Dna {
     comp_methods!();
     mask_methods!();
     ord_methods!();
-    ord_kmer!();
+    crate::kdispatch_impl!([1 2 3 4 5 6 7 8 9 10 11 12 13 14 15 16], [1 2 3 4 5 6 7 8 9 10 11 12 13 14 15 16 17 18 19 20 21 22 23 24 25 26 27 28 29 30 31 32], yes, no);
 }
 
 impl HC for masked::Iupac {
@@ -198,7 +187,7 @@ impl HC for masked::Iupac {
     comp_methods!();
     mask_methods!();
     ord_methods!();
-    ord_kmer!();
+    crate::kdispatch_impl!([1 2 3 4 5 6 7 8 9 10 11 12], [1 2 3 4 5 6 7 8 9 10 11 12 13 14 15 16 17 18 19 20 21 22 23 24 25], yes, no);
 }
 
 impl HC for degenerate::Dna {
@@ -208,7 +197,7 @@ impl HC for degenerate::Dna {
     const HAS_ORD: bool = true;
     comp_methods!();
     ord_methods!();
-    ord_kmer!();
+    crate::kdispatch_impl!([1 2 3 4 5 6 7 8 9 10 11 12 13 14 15 16 17 18 19 20 21 22 23 24 25 26 27 28 29 30 31 32 33 34 35 36 37 38 39 40 41 42 43 44 45 46 47 48 49 50 51 52 53 54 55 56 57 58 59 60 61 62 63 64], [1 2 3 4 5 6 7 8 9 10 11 12 13 14 15 16 17 18 19 20 21 22 23 24 25 26 27 28 29 30 31 32 33 34 35 36 37 38 39 40 41 42 43 44 45 46 47 48 49 50 51 52 53 54 55 56 57 58 59 60 61 62 63 64 65 66 67 68 69 70 71 72 73 74 75 76 77 78 79 80 81 82 83 84 85 86 87 88 89 90 91 92 93 94 95 96 97 98 99 100 101 102 103 104 105 106 107 108 109 110 111 112 113 114 115 116 117 118 119 120 121 122 123 124 125 126 127 128], yes, no);
 }
 
 /// run `f` for the codec named `name`
